@@ -3,6 +3,7 @@ package main
 import (
 	"go/constant"
 	"go/token"
+	"go/types"
 
 	"golang.org/x/tools/go/ssa"
 )
@@ -146,6 +147,229 @@ func prefixTestsPrecede(fn *ssa.Function, s ssa.Value, at *ssa.BasicBlock) strin
 	}
 	if !found['?'] || !found['*'] {
 		return "the function splits the string without having looked at its `?` / `*` prefix"
+	}
+	return ""
+}
+
+// AL-len (C21): how many JSON entries a type is written with is notation, not meaning:
+// `"A|B"` is one entry, ["A","B"] two. No flag of a loaded value may be computed from the
+// length of a raw type list (a field with the JSON key "type"): a flag that depends on it
+// differs between the compact and the long notation of the same type.
+func alLen(w *World, r *EngineResult) {
+	isTypeList := func(v ssa.Value) bool {
+		switch x := v.(type) {
+		case *ssa.UnOp:
+			if fa, ok := x.X.(*ssa.FieldAddr); ok {
+				if pt, ok := fa.X.Type().Underlying().(*types.Pointer); ok {
+					if st, ok := pt.Elem().Underlying().(*types.Struct); ok {
+						return jsonTag(st, fa.Field) == "type"
+					}
+				}
+			}
+		case *ssa.Field:
+			if st, ok := x.X.Type().Underlying().(*types.Struct); ok {
+				return jsonTag(st, x.Field) == "type"
+			}
+		}
+		return false
+	}
+	var dependsOnLen func(v ssa.Value, depth int, seen map[ssa.Value]bool) string
+	dependsOnLen = func(v ssa.Value, depth int, seen map[ssa.Value]bool) string {
+		if seen[v] || depth > 8 {
+			return ""
+		}
+		seen[v] = true
+		switch x := v.(type) {
+		case *ssa.Call:
+			if bi, ok := x.Call.Value.(*ssa.Builtin); ok && bi.Name() == "len" && len(x.Call.Args) == 1 && isTypeList(x.Call.Args[0]) {
+				return w.pos(instrPos(x))
+			}
+			return ""
+		case *ssa.BinOp:
+			if s := dependsOnLen(x.X, depth+1, seen); s != "" {
+				return s
+			}
+			return dependsOnLen(x.Y, depth+1, seen)
+		case *ssa.UnOp:
+			if x.Op == token.NOT {
+				return dependsOnLen(x.X, depth+1, seen)
+			}
+		case *ssa.Phi:
+			for _, e := range x.Edges {
+				if s := dependsOnLen(e, depth+1, seen); s != "" {
+					return s
+				}
+			}
+			// a phi of constants that merges the arms of `a && len(x) > 1`: look at the
+			// condition that selects the arms
+			for _, p := range x.Block().Preds {
+				if iff, ok := p.Instrs[len(p.Instrs)-1].(*ssa.If); ok {
+					if s := dependsOnLen(iff.Cond, depth+1, seen); s != "" {
+						return s
+					}
+				}
+			}
+		}
+		return ""
+	}
+	n := 0
+	for _, fn := range w.Funcs {
+		if pkgShort(fn) != "builtin" {
+			continue
+		}
+		ord := map[string]int{}
+		for _, b := range fn.Blocks {
+			for _, ins := range b.Instrs {
+				st, ok := ins.(*ssa.Store)
+				if !ok {
+					continue
+				}
+				fa, ok := st.Addr.(*ssa.FieldAddr)
+				if !ok {
+					continue
+				}
+				if bt, ok := st.Val.Type().Underlying().(*types.Basic); !ok || bt.Kind() != types.Bool {
+					continue
+				}
+				if _, isConst := st.Val.(*ssa.Const); isConst {
+					continue
+				}
+				n++
+				construct := "flag " + fieldNameOf(fa) + " computed"
+				ord[construct]++
+				if ord[construct] > 1 {
+					construct += "#" + itoa(ord[construct])
+				}
+				pos := w.pos(instrPos(st))
+				if where := dependsOnLen(st.Val, 0, map[ssa.Value]bool{}); where != "" {
+					r.violated("AL-len", fnKey(fn), construct, "the flag is computed from the number of JSON entries of a type list ("+where+"): `\"A|B\"` (one entry) and [\"A\", \"B\"] (two) denote the same type but get different flags", pos)
+				} else {
+					r.holds("AL-len", fnKey(fn), construct, "the flag does not depend on how many JSON entries the type was written with", pos)
+				}
+			}
+		}
+	}
+	r.Stats["loader_flags_computed"] = n
+	r.floor("loader_flags_computed", 3)
+}
+
+// AL-arm (C21): `?T` / `*T` as an argument mean T with is_default / is_asterisk for every T.
+// In the argument parser the arm that sets the flag for a prefixed string may depend on the
+// prefix test (and on the list having one entry: that is REG-prefix's business) but not on
+// what else the string contains; and a flag the notation parser has set on its result is not
+// overwritten afterwards by a value that does not include it.
+func alArm(w *World, r *EngineResult) {
+	n := 0
+	for _, fn := range w.Funcs {
+		if pkgShort(fn) != "builtin" {
+			continue
+		}
+		// prefix tests s[0] == '?' / '*'
+		type arm struct {
+			blk *ssa.BasicBlock // true successor
+			ch  rune
+			s   ssa.Value
+		}
+		var arms []arm
+		for _, b := range fn.Blocks {
+			iff, ok := b.Instrs[len(b.Instrs)-1].(*ssa.If)
+			if !ok {
+				continue
+			}
+			bo, ok := iff.Cond.(*ssa.BinOp)
+			if !ok || bo.Op != token.EQL {
+				continue
+			}
+			ix, ok := bo.X.(*ssa.Index)
+			if !ok {
+				continue
+			}
+			k, ok := bo.Y.(*ssa.Const)
+			if !ok || k.Value == nil || (k.Int64() != '?' && k.Int64() != '*') {
+				continue
+			}
+			ic, ok := ix.Index.(*ssa.Const)
+			if !ok || ic.Int64() != 0 {
+				continue
+			}
+			arms = append(arms, arm{blk: b.Succs[0], ch: rune(k.Int64()), s: ix.X})
+		}
+		if len(arms) == 0 {
+			continue
+		}
+		// does this function set flags in those arms (the argument parser), as opposed to
+		// the notation parser that recurses on the rest?
+		for _, a := range arms {
+			// flag effects dominated by the arm: stores of constant true to a bool field, or
+			// calls of a setter with constant true
+			for _, b := range fn.Blocks {
+				if b != a.blk && !a.blk.Dominates(b) {
+					continue
+				}
+				for _, ins := range b.Instrs {
+					isFlag, what := false, ""
+					switch x := ins.(type) {
+					case *ssa.Store:
+						if k, ok := x.Val.(*ssa.Const); ok && k.Value != nil && k.Value.Kind() == constant.Bool && constant.BoolVal(k.Value) {
+							if fa, ok := x.Addr.(*ssa.FieldAddr); ok {
+								isFlag, what = true, fieldNameOf(fa)
+							}
+						}
+					case *ssa.Call:
+						if cal := x.Call.StaticCallee(); cal != nil && len(x.Call.Args) == 2 {
+							if k, ok := x.Call.Args[1].(*ssa.Const); ok && k.Value != nil && k.Value.Kind() == constant.Bool && constant.BoolVal(k.Value) {
+								isFlag, what = true, cal.Name()
+							}
+						}
+					}
+					if !isFlag {
+						continue
+					}
+					n++
+					construct := "`" + string(a.ch) + "` arm sets " + what
+					pos := w.pos(instrPos(ins))
+					// conditions between the arm and the flag: content tests of the same string
+					bad := ""
+					for cur := b; cur != nil && cur != a.blk && cur.Idom() != nil; cur = cur.Idom() {
+						d := cur.Idom()
+						if d != a.blk && !a.blk.Dominates(d) {
+							break
+						}
+						iff, ok := d.Instrs[len(d.Instrs)-1].(*ssa.If)
+						if !ok || len(cur.Preds) != 1 {
+							continue
+						}
+						if c := contentTest(iff.Cond, a.s); c != "" {
+							bad = c
+						}
+					}
+					if bad == "" {
+						r.holds("AL-arm", fnKey(fn), construct, "the flag depends on the prefix only", pos)
+					} else {
+						r.violated("AL-arm", fnKey(fn), construct, "the flag is set only when the rest of the string passes "+bad+": for the other types the prefixed notation does not mean `T` with the flag", pos)
+					}
+				}
+			}
+		}
+	}
+	r.Stats["prefix_arm_flags"] = n
+	r.floor("prefix_arm_flags", 2)
+}
+
+// contentTest: cond (possibly negated) is strings.Contains(s, const): the constant.
+func contentTest(cond ssa.Value, s ssa.Value) string {
+	switch x := cond.(type) {
+	case *ssa.UnOp:
+		if x.Op == token.NOT {
+			return contentTest(x.X, s)
+		}
+	case *ssa.Call:
+		cal := x.Call.StaticCallee()
+		if cal != nil && cal.Pkg != nil && cal.Pkg.Pkg.Path() == "strings" && len(x.Call.Args) == 2 && x.Call.Args[0] == s {
+			if k, ok := x.Call.Args[1].(*ssa.Const); ok && k.Value != nil && k.Value.Kind() == constant.String {
+				return "strings." + cal.Name() + "(…, " + k.Value.ExactString() + ")"
+			}
+		}
 	}
 	return ""
 }
